@@ -53,6 +53,7 @@ import r61_guessreturn
 import r62_operatorarg
 import r63_requiredguess
 import r64_wdlayout
+import r65_returnroles
 import r06_validate
 import r07_cache
 import r08_toporder
@@ -267,6 +268,10 @@ def r56(ctx, prop):
 
 def r57(ctx, prop):
     return r57_roleslot.run(ctx.F())
+
+
+def r65(ctx, prop):
+    return r65_returnroles.run(ctx.F())
 
 
 def r64(ctx, prop):
@@ -533,24 +538,24 @@ def r12(ctx, prop):
 PROPERTY_RULES = {
     "C08": [r10_wrapper, r11, r2, r20, r21, r25, r27, r37, r38, r40, r44, r20b, r1_functional],
     "C09": [r12, r18, r20, r10_wrapper, r30, r38, r40, r20b, r14],
-    "C02": [r3, r7, r39, r40, r1_sinks, r20b],
+    "C02": [r3, r7, r39, r40, r1_sinks, r20b, r29],
     "C10": [r10_selector, r8, r1_idealgas, r3, r19, r25, r29, r10_selconst, r1_guard_idealgas, r44],
     "C14": [r14, r13, r10_identifier, r21, r27, r28, r38, r40, r47, r20b, r49],
     "C12": [r4, r16, r50, r54, r24, r61, r63],
-    "C19": [r55, r1_functional, r8, r21, r10_selconst, r62],
+    "C19": [r55, r1_functional, r8, r21, r10_selconst, r62, r18],
     "C15": [r15],
-    "C16": [r51, r52, r53, r56, r48, r10_selconst, r55, r64],
+    "C16": [r51, r52, r53, r56, r48, r10_selconst, r55, r64, r18],
     "C20": [r10_transport, r21, r25, r24, r34, r10_selconst, r41, r47, r60],
     "C01": [r1_all, r2, r7, r8, r4, r25, r24, r26, r28, r29, r39, r40, r44, r20b],
     "C13": [r1_guard, r8, r21, r32, r36, r43],
     "C17": [r1_functional, r8, r22, r25, r21, r26, r28, r33, r40, r44, r47, r48, r62],
     "C11": [r9, r7],
     "C03": [r6, r17, r4, r5, r25, r24, r26, r31, r40, r43, r44],
-    "C04": [r4, r16, r25, r24, r26, r31, r10_selconst, r40, r46, r50],
-    "C05": [r4, r5, r16, r25, r24, r26, r31, r10_selconst, r39, r40, r43, r44, r46, r57],
+    "C04": [r4, r16, r25, r24, r26, r31, r10_selconst, r40, r46, r50, r65],
+    "C05": [r4, r5, r16, r25, r24, r26, r31, r10_selconst, r39, r40, r43, r44, r46, r57, r65],
     "C06": [r4, r1_all, r21, r25, r24, r26, r28, r31, r39, r40, r20b, r50, r59],
     "C07": [r5, r4, r25, r24, r26, r31, r10_selconst, r40, r43, r46],
-    "C18": [r4, r16, r25, r24, r26, r35, r39, r40, r42, r44, r45],
+    "C18": [r4, r16, r25, r24, r26, r35, r39, r40, r42, r44, r45, r18],
 }
 
 
